@@ -32,7 +32,8 @@ type member struct {
 	delivered      int // frames handed to Read
 	tx, rxb        uint64
 	unrel          bool
-	closeErr       error // CloseWithStatus tears the connection down but reports this error
+	unrelAccepted  [][]byte // datagrams written to this member's unreliable side
+	closeErr       error    // CloseWithStatus tears the connection down but reports this error
 }
 
 func (m *member) Read() ([]byte, error) {
@@ -94,7 +95,34 @@ func (m *member) Name() transport.Name        { return "member" }
 func (m *member) NegotiationParams() transport.NegotiationParams {
 	return m.cfg.NegotiationParams()
 }
-func (m *member) AsUnreliable() (transport.UnreliableTransport, bool) { return nil, false }
+func (m *member) AsUnreliable() (transport.UnreliableTransport, bool) {
+	if !m.unrel {
+		return nil, false
+	}
+	return &memberUnrel{m: m}, true
+}
+
+// memberUnrel is the datagram side of a scripted member: it records what is written to it.
+type memberUnrel struct{ m *member }
+
+func (u *memberUnrel) IsUnreliable() {}
+func (u *memberUnrel) Read() ([]byte, error) {
+	<-u.m.closed
+	return nil, transport.ErrAlreadyClosed
+}
+func (u *memberUnrel) Write(b []byte) error {
+	s := u.m.s
+	s.mu.Lock()
+	defer s.mu.Unlock()
+	if u.m.isClosed {
+		return transport.ErrAlreadyClosed
+	}
+	u.m.unrelAccepted = append(u.m.unrelAccepted, append([]byte(nil), b...))
+	return nil
+}
+func (u *memberUnrel) Close() error                { return nil }
+func (u *memberUnrel) RxBytesCounterValue() uint64 { return 0 }
+func (u *memberUnrel) TxBytesCounterValue() uint64 { return 0 }
 
 // failRead makes the pending/next Read return an error (the connection broke).
 func (m *member) failRead(err error) {
